@@ -138,17 +138,188 @@ def gen_d6_direct(r):
     return ("D", nc, nch, ops)
 
 
+
+# ---- W cases: the real WaitSetAsync::wait futures ------------------------------------
+ODM = 1  # OfferedDeadlineMissed: the only status the harness can make a DataWriter change
+
+
+def tag(c):
+    """condition c carries c+1 in the four highest kinds of every mask (never changing
+    statuses), so that the harness can tell which conditions wait() returned"""
+    return [9 + i for i in range(4) if ((c + 1) >> i) & 1]
+
+
+class WMirror:
+    """steering copy of the protocol (which registrations exist), not part of the check"""
+
+    def __init__(self, nc, nw):
+        self.en = [set(range(13)) for _ in range(nc)]
+        self.chg = [set() for _ in range(nc)]
+        self.reg = [[] for _ in range(nc)]
+        self.chans = []
+        self.w = [{"pc": "idle", "att": []} for _ in range(nw)]
+
+    def trig(self, c):
+        return bool(self.en[c] & self.chg[c])
+
+    def add(self, c):
+        self.chg[c].add(ODM)
+        if self.trig(c):
+            for ch in self.reg[c]:
+                self.chans[ch] = True
+            self.reg[c] = []
+
+    def remove(self, c):
+        self.chg[c].discard(ODM)
+
+    def d6(self, c, ks):
+        return bool(self.reg[c]) and bool(set(ks) & self.chg[c])
+
+    def start(self, i, cs):
+        self.w[i] = {"pc": "c1", "j": 0, "acc": [], "att": list(cs)} if cs else {"pc": "done", "att": []}
+
+    def cancel(self, i):
+        self.w[i] = {"pc": "idle", "att": []}
+
+    def step(self, i):
+        w = self.w[i]
+        pc = w["pc"]
+        if pc == "done":
+            self.cancel(i)
+        elif pc in ("c1", "c2"):
+            c = w["att"][w["j"]]
+            if self.trig(c):
+                w["acc"].append(c)
+            w["j"] += 1
+            if w["j"] == len(w["att"]):
+                if pc == "c2" or w["acc"]:
+                    w["pc"] = "done"
+                else:
+                    self.chans.append(False)
+                    w["ch"] = len(self.chans) - 1
+                    w["pc"], w["j"] = "reg", 0
+        elif pc == "reg":
+            c = w["att"][w["j"]]
+            if self.trig(c):
+                self.chans[w["ch"]] = True
+            else:
+                self.reg[c].append(w["ch"])
+            w["j"] += 1
+            if w["j"] == len(w["att"]):
+                w["pc"] = "await"
+        elif pc == "await":
+            if self.chans[w["ch"]]:
+                self.chans[w["ch"]] = False
+                w["pc"], w["j"], w["acc"] = "c2", 0, []
+                self.step(i)
+
+    def blocked(self, i):
+        w = self.w[i]
+        return w["pc"] == "await" and not self.chans[w["ch"]]
+
+
+def rmask_w(r, c, want=None):
+    low = [k for k in (0, 2, 3, 4, 5, 6, 7, 8) if r.random() < 0.2]
+    has = (r.random() < 0.6) if want is None else want
+    ks = low + ([ODM] if has else []) + tag(c)
+    r.shuffle(ks)
+    return ks
+
+
+def gen_wait(r, clean):
+    nc = r.choice([1, 1, 2, 2, 3])
+    nw = r.choice([1, 2, 2, 3])
+    m = WMirror(nc, nw)
+    ops = []
+    for c in range(nc):
+        ks = rmask_w(r, c)
+        ops.append(("s", c, ks))
+        m.en[c] = set(ks)
+    n = r.randint(8, 60)
+    for _ in range(n):
+        c = r.randrange(nc)
+        i = r.randrange(nw)
+        x = r.random()
+        if x < 0.14:
+            ops.append(("a", c, ODM))
+            m.add(c)
+        elif x < 0.22:
+            ops.append(("r", c, ODM))
+            m.remove(c)
+        elif x < 0.32:
+            ks = rmask_w(r, c)
+            if clean and m.d6(c, ks):
+                ks = [k for k in ks if k != ODM]
+            ops.append(("s", c, ks))
+            m.en[c] = set(ks)
+        elif x < 0.35:
+            ops.append(("t", c))
+        elif x < 0.47:
+            if m.w[i]["pc"] in ("idle", "done") or r.random() < 0.15:
+                k = r.choice([0, 1, 1, 1, 2, 2, 3]) if nc > 1 else r.choice([0, 1, 1, 1, 2])
+                cs = [r.randrange(nc) for _ in range(k)]
+                ops.append(("w", i, cs))
+                m.start(i, cs)
+            else:
+                ops.append(("n", i))
+                m.step(i)
+        elif x < 0.97:
+            # prefer waiters that can move
+            cand = [j for j in range(nw) if m.w[j]["pc"] != "idle" and not m.blocked(j)]
+            if cand and r.random() < 0.8:
+                i = r.choice(cand)
+            ops.append(("n", i))
+            m.step(i)
+        else:
+            ops.append(("c", i))
+            m.cancel(i)
+    # let every call run to its end: a waiter left blocked must have nothing to report
+    if r.random() < 0.85:
+        for i in range(nw):
+            for _ in range(2 * len(m.w[i]["att"]) + 3):
+                ops.append(("n", i))
+                m.step(i)
+    return ("W", nc, nw, ops)
+
+
+def gen_d6_wait(r):
+    """waiter parked, then the status that already changed gets enabled"""
+    nc, nw = r.choice([1, 2]), r.choice([1, 2])
+    c, i = r.randrange(nc), r.randrange(nw)
+    ops = [("s", x, rmask_w(r, x, want=(x != c))) for x in range(nc)]
+    ops.append(("a", c, ODM))
+    cs = [c] if r.random() < 0.6 else [r.randrange(nc), c]
+    ops.append(("w", i, cs))
+    for _ in range(r.randint(1, 2 * len(cs) + 2)):
+        ops.append(("n", i))
+    ops.append(("s", c, rmask_w(r, c, want=True)))
+    ops.append(("t", c))
+    for _ in range(r.randint(0, 3)):
+        ops.append(("n", i))
+    if r.random() < 0.4:
+        ops.append(("a", c, ODM))
+        for _ in range(4):
+            ops.append(("n", i))
+    return ("W", nc, nw, ops)
+
+
 def gen(r, tier):
     n = {"quick": 3000, "search": 12000, "thorough": 60000}[tier]
     cases = []
     while len(cases) < n:
         x = r.random()
-        if x < 0.80:
+        if x < 0.36:
             cases.append(gen_direct(r, clean=True))
-        elif x < 0.95:
+        elif x < 0.46:
             cases.append(gen_direct(r, clean=False))
-        else:
+        elif x < 0.50:
             cases.append(gen_d6_direct(r))
+        elif x < 0.86:
+            cases.append(gen_wait(r, clean=True))
+        elif x < 0.96:
+            cases.append(gen_wait(r, clean=False))
+        else:
+            cases.append(gen_d6_wait(r))
     return cases
 
 
@@ -164,6 +335,16 @@ def corpus():
         # one channel registered twice on one condition and once on another
         ("D", 2, 1, [("g", 0, 0), ("g", 0, 0), ("g", 1, 0), ("p", 0), ("a", 0, 8), ("p", 0), ("p", 0),
                      ("a", 1, 8), ("p", 0)]),
+        # real wait(): check, register, park, status changes -> woken, collect, result [c0]
+        ("W", 1, 1, [("s", 0, [9, 1]), ("w", 0, [0]), ("n", 0), ("n", 0), ("n", 0), ("a", 0, 1), ("n", 0), ("n", 0),
+                     ("n", 0)]),
+        # D6 on the real wait(): parked, then the changed status is enabled: not woken, does not return
+        ("W", 1, 1, [("s", 0, [9]), ("a", 0, 1), ("w", 0, [0]), ("n", 0), ("n", 0), ("n", 0), ("s", 0, [9, 1]),
+                     ("t", 0), ("n", 0), ("n", 0), ("a", 0, 1), ("n", 0), ("n", 0)]),
+        # two conditions, both true at the end -> result [c0; c1]; empty wait set -> PreconditionNotMet
+        ("W", 2, 2, [("s", 0, [9, 1]), ("s", 1, [10, 1]), ("w", 0, [0, 1]), ("w", 1, []), ("n", 1), ("n", 0),
+                     ("n", 0), ("n", 0), ("n", 0), ("n", 0), ("a", 1, 1), ("a", 0, 1), ("n", 0), ("n", 0), ("n", 0),
+                     ("n", 0), ("r", 0, 1), ("t", 0), ("w", 1, [1, 0]), ("n", 1), ("n", 1), ("n", 1)]),
     ]
 
 
@@ -225,19 +406,19 @@ def dop_term(o):
 def wop_term(o):
     t = o[0]
     if t == "a":
-        return "WAdd %s %s" % (nat(o[1]), KNAMES[o[2] % 13])
+        return "HAdd %s %s" % (nat(o[1]), KNAMES[o[2] % 13])
     if t == "r":
-        return "WRemove %s %s" % (nat(o[1]), KNAMES[o[2] % 13])
+        return "HRemove %s %s" % (nat(o[1]), KNAMES[o[2] % 13])
     if t == "s":
-        return "WSetEnabled %s %s" % (nat(o[1]), kinds(o[2]))
+        return "HSet %s %s" % (nat(o[1]), kinds(o[2]))
     if t == "t":
-        return "WGetTrigger %s" % nat(o[1])
+        return "HGet %s" % nat(o[1])
     if t == "w":
-        return "WStart %s [%s]" % (nat(o[1]), "; ".join(nat(x) for x in o[2]))
+        return "HStart %s [%s]" % (nat(o[1]), "; ".join(nat(x) for x in o[2]))
     if t == "n":
-        return "WStep %s" % nat(o[1])
+        return "HStep %s" % nat(o[1])
     if t == "c":
-        return "WCancel %s" % nat(o[1])
+        return "HCancel %s" % nat(o[1])
     raise ValueError(t)
 
 
